@@ -156,6 +156,18 @@ def o_create(case):
         if ti.previous_hash != ident[2] or ti.previous_index != ident[3]:
             _bad("create_tx:pairing", "txs_in[%d] spends %s:%d, the %d-th spendable (form %s) is %s:%d" % (
                 i, ti.previous_hash.hex(), ti.previous_index, i, case["spendables"][i]["form"], ident[2].hex(), ident[3]))
+    # "stays paired": the caller goes on to reuse its own argument list (a wallet refilling one pool list); the built
+    # transaction must not change with it
+    if all(sp["form"] == "obj" for sp in case["spendables"]):
+        labels.append("all-spendable-objects")
+    args.reverse()
+    del args[len(args) // 2:]
+    got = [(u.coin_value, u.script, u.tx_hash, u.tx_out_index) for u in tx.unspents]
+    if got != idents:
+        _bad("create_tx:pairing:aliases-argument-list", "after the caller reversed and truncated the list it had passed, tx.unspents "
+             "changed from the %d spendables to %d entries" % (len(idents), len(got)))
+    if tx.total_in() != inputs or tx.fee() != inputs - sum(expect):
+        _bad("tx:fee-arithmetic", "%s: fee() changed to %d after the caller modified its own argument list" % (where, tx.fee()))
     return labels + ["built"]
 
 
